@@ -272,8 +272,11 @@ def rs (c : List String) (impl : List String) : String :=
     let req := if !exitFirst then "ok"
       else if refuseNew && (s.conns[0]?).map (fun k => decide (k.notified > 0 && k.phase != Phase.active)) == some true then "retry"
       else "fail"
-    let out := s!"req={req} exitfirst={if exitFirst then 1 else 0} exit={sm.exit.getD (-1)} after={probeResult s.lis}"
     let g (k : String) := (kv impl k).getD "?"
+    -- the exiting process may reset the connection before the client has read the GOAWAY: then the refusal cannot be
+    -- recognised as retryable (both outcomes are the implementation's; the property predicate judges them)
+    let req := if req == "retry" && exitFirst && g "req" == "fail" then "fail" else req
+    let out := s!"req={req} exitfirst={if exitFirst then 1 else 0} exit={sm.exit.getD (-1)} after={probeResult s.lis}"
     let spec := (g "req" == "ok" || (proto == "h2" && phase == "hdr" && g "req" == "retry")) && g "exit" == "0" && g "after" == "ref"
     verdict (joinWith " " impl == out) spec out
   | _, _, _ => "E E bad-case"
@@ -286,15 +289,15 @@ def up (c : List String) (impl : List String) : String :=
     -- the frame as 0,1,2,…: what the new connection's read buffer holds after the hand-over, then the rest arrives
     let frameLen := half + 7
     let frame : List UInt8 := (List.range frameLen).map (fun i => UInt8.ofNat (i % 251))
-    let halfOk := match handover (frame.take half) [] with
+    let halfOk := adoptedSurvives half && (match handover (frame.take half) [] with
       | some (b, _) => b ++ frame.drop half == frame
-      | none => false
+      | none => false)
     let bolt := Gen.Shutdown.transferableXprotocol
     let adopted := if bolt then idle + 1 + wait else 0
     let adoptedH := if Gen.Shutdown.transferableHttp1 then h1 else 0
     let oldSt := (lisShutdown ⟨Gen.Shutdown.ListenerRunning, true, true, true, true⟩ Gen.Shutdown.Upgrading).1.state
     let na (b : Bool) (x : String) := if b then x else "na"
-    let out := s!"fds={1 + h1} oldstate={oldSt} adopted={adopted} adoptedh1={adoptedH} half={if halfOk then "ok" else "fail"} wait={na (wait == 1) "ok"} idle={na (idle > 0) "ok"} h1={na (h1 == 1) "ok"} new=srv newreq={idle + 2} exit=0"
+    let out := s!"fds={1 + h1} oldstate={oldSt} adopted={adopted} adoptedh1={adoptedH} half={if halfOk then "ok" else "fail"} wait={na (wait == 1) "ok"} idle={na (idle > 0) "ok"} h1={na (h1 == 1) "ok"} new=srv newreq={idle + 1 + (if halfOk then 1 else 0)} exit=0"
     let g (k : String) := (kv impl k).getD "?"
     let spec := g "fds" == toString (1 + h1) && g "adopted" == toString (idle + 1 + wait) && g "half" == "ok"
       && (g "wait" == "ok" || (wait == 0 && g "wait" == "na")) && (g "idle" == "ok" || (idle == 0 && g "idle" == "na"))
